@@ -44,7 +44,7 @@ func TestC14_Plain(t *testing.T) {
 	observeOnce()
 	classes := append(allPrivateClasses(), sm9PubKinds...)
 	h.Sweep(t, h.P{Name: "plain-roundtrip"}, func(emit func(rtCase)) {
-		for _, ks := range keySeeds(h.Scale(4, 60)) {
+		for _, ks := range keySeeds(h.Scale(4, 150)) {
 			for _, kc := range classes {
 				if hasPrefix(kc, "rsa-") && ks != keySeeds(1)[0] {
 					continue // the RSA keys are fixed
@@ -58,7 +58,7 @@ func TestC14_Plain(t *testing.T) {
 		}
 	}, checkRT)
 	h.Sweep(t, h.P{Name: "sm9-user-key-without-master-public"}, func(emit func(noMasterCase)) {
-		enumNoMaster(keySeeds(h.Scale(3, 30)), emit)
+		enumNoMaster(keySeeds(h.Scale(3, 60)), emit)
 	}, checkNoMaster)
 }
 
@@ -67,7 +67,9 @@ func TestC14_Plain(t *testing.T) {
 func TestC14_PBES2(t *testing.T) {
 	observeOnce()
 	h.MarkExhaustive("pbes2-product")
-	ks := keySeeds(1)[0]
+	// thorough: the whole product six times, each pass with other key seeds,
+	// salt sizes, iteration counts / scrypt costs and encoder randomness
+	seeds := keySeeds(h.Scale(1, 6))
 	h.Sweep(t, h.P{Name: "pbes2-product"}, func(emit func(rtCase)) {
 		i := 0
 		emitAll := func(s cspec) {
@@ -75,22 +77,27 @@ func TestC14_PBES2(t *testing.T) {
 				emit(rtCase{s, w})
 			}
 		}
-		for _, kc := range allPrivateClasses() {
-			for _, ce := range pbes2Ciphers {
+		for pass, ks := range seeds {
+			for _, kc := range allPrivateClasses() {
+				if hasPrefix(kc, "rsa-") && pass > 0 && pass%3 != 0 {
+					continue // the RSA keys are fixed; repeat them for the parameters only now and then
+				}
+				for _, ce := range pbes2Ciphers {
+					for _, kdf := range kdfNames {
+						for pw := 1; pw <= 3; pw++ {
+							i++
+							emitAll(cspec{Key: kc, KSeed: ks, Cont: "p8-pbes2", Cipher: ce.name, KDF: kdf, Pw: pw,
+								Salt: saltSizes[(i+pass)%len(saltSizes)], Iter: iterFor(i + 7*pass), ESeed: gen.Mix(h.Seed, uint64(i))})
+						}
+					}
+				}
+				// SM-PBES: SM4-CBC under the ShangMi PBES OID, every KDF
 				for _, kdf := range kdfNames {
 					for pw := 1; pw <= 3; pw++ {
 						i++
-						emitAll(cspec{Key: kc, KSeed: ks, Cont: "p8-pbes2", Cipher: ce.name, KDF: kdf, Pw: pw,
-							Salt: saltSizes[i%len(saltSizes)], Iter: iterFor(i), ESeed: gen.Mix(h.Seed, uint64(i))})
+						emitAll(cspec{Key: kc, KSeed: ks, Cont: "p8-smpbes", Cipher: "SM4-CBC", KDF: kdf, Pw: pw,
+							Salt: saltSizes[(i+pass)%len(saltSizes)], Iter: iterFor(i + 7*pass), ESeed: gen.Mix(h.Seed, uint64(i))})
 					}
-				}
-			}
-			// SM-PBES: SM4-CBC under the ShangMi PBES OID, every KDF
-			for _, kdf := range kdfNames {
-				for pw := 1; pw <= 3; pw++ {
-					i++
-					emitAll(cspec{Key: kc, KSeed: ks, Cont: "p8-smpbes", Cipher: "SM4-CBC", KDF: kdf, Pw: pw,
-						Salt: saltSizes[i%len(saltSizes)], Iter: iterFor(i), ESeed: gen.Mix(h.Seed, uint64(i))})
 				}
 			}
 		}
@@ -104,20 +111,26 @@ func TestC14_PBES2Variants(t *testing.T) {
 	observeOnce()
 	ks := keySeeds(2)[1]
 	keys := []string{"sm2-lz1", "sm9-encuser", "p256-lz1", "rsa-1024", "ecdh-uniform", "sm2-n-2", "sm9-signmaster-lz1"}
+	if h.Thorough() {
+		keys = allPrivateClasses()
+	}
 	h.Sweep(t, h.P{Name: "pbes2-variants"}, func(emit func(rtCase)) {
 		i := 0
-		for _, ce := range pbes2Ciphers {
-			for _, kdf := range kdfNames {
-				i++
-				kc := keys[i%len(keys)]
-				for w := 0; w <= 4; w++ {
-					if kdf != "SMPBKDF2-SM3" { // no exported literal form selects the ShangMi PBKDF OID
-						emit(rtCase{cspec{Key: kc, KSeed: ks, Cont: "p8-pbes2lit", Cipher: ce.name, KDF: kdf, Pw: 1 + i%4,
-							Salt: saltSizes[i%len(saltSizes)], Iter: iterFor(i), ESeed: gen.Mix(h.Seed, 0x117, uint64(i))}, w})
+		for pass := 0; pass < h.Scale(1, len(keys)); pass++ {
+			i += pass // another key class, password class and parameters for each scheme in each pass
+			for _, ce := range pbes2Ciphers {
+				for _, kdf := range kdfNames {
+					i++
+					kc := keys[i%len(keys)]
+					for w := 0; w <= 4; w++ {
+						if kdf != "SMPBKDF2-SM3" { // no exported literal form selects the ShangMi PBKDF OID
+							emit(rtCase{cspec{Key: kc, KSeed: ks, Cont: "p8-pbes2lit", Cipher: ce.name, KDF: kdf, Pw: 1 + i%4,
+								Salt: saltSizes[i%len(saltSizes)], Iter: iterFor(i), ESeed: gen.Mix(h.Seed, 0x117, uint64(i))}, w})
+						}
+						// empty password directly through the encrypter (pkcs8.MarshalPrivateKey reads it as "no encryption")
+						emit(rtCase{cspec{Key: kc, KSeed: ks, Cont: "p8-pbes2raw", Cipher: ce.name, KDF: kdf, Pw: (i % 2) * 2,
+							Salt: saltSizes[(i+1)%len(saltSizes)], Iter: iterFor(i + 3), ESeed: gen.Mix(h.Seed, 0x4a3, uint64(i))}, w})
 					}
-					// empty password directly through the encrypter (pkcs8.MarshalPrivateKey reads it as "no encryption")
-					emit(rtCase{cspec{Key: kc, KSeed: ks, Cont: "p8-pbes2raw", Cipher: ce.name, KDF: kdf, Pw: (i % 2) * 2,
-						Salt: saltSizes[(i+1)%len(saltSizes)], Iter: iterFor(i + 3), ESeed: gen.Mix(h.Seed, 0x4a3, uint64(i))}, w})
 				}
 			}
 		}
@@ -137,24 +150,29 @@ func TestC14_PBES2Variants(t *testing.T) {
 func TestC14_PBES1_PEM(t *testing.T) {
 	observeOnce()
 	h.MarkExhaustive("pbes1-pem-product")
-	ks := keySeeds(3)[2]
+	seeds := keySeeds(2 + h.Scale(1, 8))[2:]
 	h.Sweep(t, h.P{Name: "pbes1-pem-product"}, func(emit func(rtCase)) {
 		i := 0
-		for _, kc := range allPrivateClasses() {
-			for _, sch := range pbes1Names {
-				for pw := 1; pw <= 4; pw++ {
-					i++
-					for w := 0; w <= 4; w++ {
-						emit(rtCase{cspec{Key: kc, KSeed: ks, Cont: "p8-pbes1", Cipher: sch, Pw: pw,
-							Salt: []int{8, 1, 16, 0}[i%4], Iter: iterFor(i), ESeed: gen.Mix(h.Seed, 0xbe51, uint64(i))}, w})
+		for pass, ks := range seeds {
+			for _, kc := range allPrivateClasses() {
+				if hasPrefix(kc, "rsa-") && pass%4 != 0 {
+					continue
+				}
+				for _, sch := range pbes1Names {
+					for pw := 1; pw <= 4; pw++ {
+						i++
+						for w := 0; w <= 4; w++ {
+							emit(rtCase{cspec{Key: kc, KSeed: ks, Cont: "p8-pbes1", Cipher: sch, Pw: pw,
+								Salt: []int{8, 1, 16, 0}[i%4], Iter: iterFor(i), ESeed: gen.Mix(h.Seed, 0xbe51, uint64(i))}, w})
+						}
 					}
 				}
-			}
-			for _, pc := range pemCiphers {
-				for pw := 0; pw <= 3; pw++ {
-					i++
-					for w := 0; w <= 4; w++ {
-						emit(rtCase{cspec{Key: kc, KSeed: ks, Cont: "pem", Cipher: pc.name, Pw: pw, ESeed: gen.Mix(h.Seed, 0x9e3, uint64(i))}, w})
+				for _, pc := range pemCiphers {
+					for pw := 0; pw <= 3; pw++ {
+						i++
+						for w := 0; w <= 4; w++ {
+							emit(rtCase{cspec{Key: kc, KSeed: ks, Cont: "pem", Cipher: pc.name, Pw: pw, ESeed: gen.Mix(h.Seed, 0x9e3, uint64(i))}, w})
+						}
 					}
 				}
 			}
@@ -166,7 +184,7 @@ func TestC14_PBES1_PEM(t *testing.T) {
 
 func TestC14_Enveloped(t *testing.T) {
 	observeOnce()
-	seeds := keySeeds(h.Scale(3, 20))
+	seeds := keySeeds(h.Scale(3, 60))
 	h.Sweep(t, h.P{Name: "enveloped-roundtrip"}, func(emit func(rtCase)) {
 		for i, ks := range seeds {
 			for _, kc := range sm2Classes {
@@ -180,15 +198,17 @@ func TestC14_Enveloped(t *testing.T) {
 	}, checkRT)
 	h.MarkExhaustive("enveloped-alter")
 	h.Sweep(t, h.P{Name: "enveloped-alter"}, func(emit func(altCase)) {
-		for _, kc := range sm2Classes {
-			emitAlterations(cspec{Key: kc, KSeed: seeds[0], Cont: "env", ESeed: gen.Mix(h.Seed, 0xa17e)}, emit)
+		for p := 0; p < h.Scale(1, 3); p++ { // thorough: three keys / envelopes per class
+			for _, kc := range sm2Classes {
+				emitAlterations(cspec{Key: kc, KSeed: seeds[p], Cont: "env", ESeed: gen.Mix(h.Seed, 0xa17e, uint64(p))}, emit)
+			}
 		}
 	}, checkAlter)
 }
 
 func TestC14_CFCA(t *testing.T) {
 	observeOnce()
-	seeds := keySeeds(h.Scale(3, 20))
+	seeds := keySeeds(h.Scale(3, 60))
 	h.Sweep(t, h.P{Name: "cfca-roundtrip"}, func(emit func(rtCase)) {
 		for i, ks := range seeds {
 			for _, kc := range sm2Classes {
@@ -206,7 +226,9 @@ func TestC14_CFCA(t *testing.T) {
 			if !h.Thorough() && i%2 == 1 && kc != "sm2-lz3" {
 				continue
 			}
-			emitAlterations(cspec{Key: kc, KSeed: seeds[0], Cont: "cfca", Pw: 1 + i%4, ESeed: gen.Mix(h.Seed, 0xa17c)}, emit)
+			for p := 0; p < h.Scale(1, 2); p++ {
+				emitAlterations(cspec{Key: kc, KSeed: seeds[p], Cont: "cfca", Pw: 1 + (i+p)%4, ESeed: gen.Mix(h.Seed, 0xa17c, uint64(p))}, emit)
+			}
 		}
 	}, checkAlter)
 }
@@ -220,17 +242,20 @@ func TestC14_AlterGCM(t *testing.T) {
 	others := []string{"sm9-signuser", "rsa-1024", "p384-lz1", "ecdh-lz1", "sm9-encmaster", "sm2-top", "p256-uniform", "sm9-encuser", "sm2-d1", "sm9-signmaster-lz1"}
 	h.Sweep(t, h.P{Name: "alter-gcm"}, func(emit func(altCase)) {
 		i := 0
-		for _, ce := range pbes2Ciphers {
-			if ce.mode != "gcm" {
-				continue
-			}
-			for _, kdf := range kdfNames {
-				i++
-				emitAlterations(cspec{Key: "sm2-lz2", KSeed: ks, Cont: "p8-pbes2", Cipher: ce.name, KDF: kdf, Pw: 1 + i%3,
-					Salt: saltSizes[i%4], Iter: iterFor(i), ESeed: gen.Mix(h.Seed, 0x6c, uint64(i))}, emit)
-				if h.Thorough() || i%4 == 0 {
-					emitAlterations(cspec{Key: others[i%len(others)], KSeed: ks, Cont: "p8-pbes2", Cipher: ce.name, KDF: kdf, Pw: 1 + i%3,
-						Salt: saltSizes[i%4], Iter: iterFor(i), ESeed: gen.Mix(h.Seed, 0x6d, uint64(i))}, emit)
+		for pass := 0; pass < h.Scale(1, 2); pass++ { // thorough: a second set of keys, salts, passwords
+			ks := keySeeds(4 + pass*7)[3+pass*7]
+			for _, ce := range pbes2Ciphers {
+				if ce.mode != "gcm" {
+					continue
+				}
+				for _, kdf := range kdfNames {
+					i++
+					emitAlterations(cspec{Key: "sm2-lz2", KSeed: ks, Cont: "p8-pbes2", Cipher: ce.name, KDF: kdf, Pw: 1 + i%3,
+						Salt: saltSizes[i%4], Iter: iterFor(i), ESeed: gen.Mix(h.Seed, 0x6c, uint64(i))}, emit)
+					if h.Thorough() || i%4 == 0 {
+						emitAlterations(cspec{Key: others[i%len(others)], KSeed: ks, Cont: "p8-pbes2", Cipher: ce.name, KDF: kdf, Pw: 1 + i%3,
+							Salt: saltSizes[i%4], Iter: iterFor(i), ESeed: gen.Mix(h.Seed, 0x6d, uint64(i))}, emit)
+					}
 				}
 			}
 		}
@@ -256,37 +281,39 @@ func TestC14_AlterGCM(t *testing.T) {
 func TestC14_AlterUnauth(t *testing.T) {
 	observeOnce()
 	h.MarkExhaustive("alter-unauthenticated")
-	ks := keySeeds(5)[4]
 	others := []string{"sm9-signuser", "p256-lz1", "ecdh-uniform", "sm9-encmaster-lz1", "sm2-n-2", "p384-uniform", "sm9-encuser", "sm2-d2", "sm9-signmaster", "rsa-1024"}
 	h.Sweep(t, h.P{Name: "alter-unauthenticated"}, func(emit func(altCase)) {
 		i := 0
-		for _, ce := range pbes2Ciphers {
-			if ce.mode == "gcm" {
-				continue
+		for pass := 0; pass < h.Scale(1, 2); pass++ { // thorough: a second set of keys, salts, passwords
+			ks := keySeeds(5 + pass*7)[4+pass*7]
+			for _, ce := range pbes2Ciphers {
+				if ce.mode == "gcm" {
+					continue
+				}
+				for _, kdf := range kdfNames {
+					i++
+					kc := "sm2-lz1"
+					if i%3 == 0 {
+						kc = others[(i/3)%len(others)]
+					}
+					emitAlterations(cspec{Key: kc, KSeed: ks, Cont: "p8-pbes2", Cipher: ce.name, KDF: kdf, Pw: 1 + i%3,
+						Salt: saltSizes[i%4], Iter: iterFor(i), ESeed: gen.Mix(h.Seed, 0x7c, uint64(i))}, emit)
+				}
 			}
 			for _, kdf := range kdfNames {
 				i++
-				kc := "sm2-lz1"
-				if i%3 == 0 {
-					kc = others[(i/3)%len(others)]
-				}
-				emitAlterations(cspec{Key: kc, KSeed: ks, Cont: "p8-pbes2", Cipher: ce.name, KDF: kdf, Pw: 1 + i%3,
-					Salt: saltSizes[i%4], Iter: iterFor(i), ESeed: gen.Mix(h.Seed, 0x7c, uint64(i))}, emit)
+				emitAlterations(cspec{Key: "sm2-lz3", KSeed: ks, Cont: "p8-smpbes", Cipher: "SM4-CBC", KDF: kdf, Pw: 1 + i%3,
+					Salt: saltSizes[i%4], Iter: iterFor(i), ESeed: gen.Mix(h.Seed, 0x7d, uint64(i))}, emit)
 			}
-		}
-		for _, kdf := range kdfNames {
-			i++
-			emitAlterations(cspec{Key: "sm2-lz3", KSeed: ks, Cont: "p8-smpbes", Cipher: "SM4-CBC", KDF: kdf, Pw: 1 + i%3,
-				Salt: saltSizes[i%4], Iter: iterFor(i), ESeed: gen.Mix(h.Seed, 0x7d, uint64(i))}, emit)
-		}
-		for _, sch := range pbes1Names {
-			i++
-			emitAlterations(cspec{Key: others[i%len(others)], KSeed: ks, Cont: "p8-pbes1", Cipher: sch, Pw: 1 + i%4,
-				Salt: 8, Iter: iterFor(i), ESeed: gen.Mix(h.Seed, 0x7e, uint64(i))}, emit)
-		}
-		emitAlterations(cspec{Key: "sm2-top", KSeed: ks, Cont: "p8-convert-pw", Cipher: "AES256-CBC", KDF: "PBKDF2-SHA256", Pw: 3, ESeed: gen.Mix(h.Seed, 0x7f)}, emit)
-		if h.Thorough() {
-			emitAlterations(cspec{Key: "rsa-2048", KSeed: ks, Cont: "p8-pbes2", Cipher: "AES128-CBC", KDF: "PBKDF2-SHA256", Pw: 2, Salt: 16, Iter: 7, ESeed: gen.Mix(h.Seed, 0x80)}, emit)
+			for _, sch := range pbes1Names {
+				i++
+				emitAlterations(cspec{Key: others[i%len(others)], KSeed: ks, Cont: "p8-pbes1", Cipher: sch, Pw: 1 + i%4,
+					Salt: 8, Iter: iterFor(i), ESeed: gen.Mix(h.Seed, 0x7e, uint64(i))}, emit)
+			}
+			emitAlterations(cspec{Key: "sm2-top", KSeed: ks, Cont: "p8-convert-pw", Cipher: "AES256-CBC", KDF: "PBKDF2-SHA256", Pw: 3, ESeed: gen.Mix(h.Seed, 0x7f)}, emit)
+			if h.Thorough() {
+				emitAlterations(cspec{Key: "rsa-2048", KSeed: ks, Cont: "p8-pbes2", Cipher: "AES128-CBC", KDF: "PBKDF2-SHA256", Pw: 2, Salt: 16, Iter: 7, ESeed: gen.Mix(h.Seed, 0x80, uint64(pass))}, emit)
+			}
 		}
 	}, checkAlter)
 }
